@@ -17,7 +17,8 @@ import (
 // unless debugging.
 
 const builtinMarker = "<title>Something went wrong</title>"
-const customPageText = "<h1>custom error page CUSTOM-SENTINEL</h1>"
+const customPageSource = "<h1 style=\"width: 100%;\">custom error page CUSTOM-SENTINEL %d %s 50%</h1>@each(i in [1, 2, 3])<i>{{ i }}</i>@end"
+const customPageText = "<h1 style=\"width: 100%;\">custom error page CUSTOM-SENTINEL %d %s 50%</h1><i>1</i><i>2</i><i>3</i>"
 
 type respPlace struct {
 	name string
@@ -31,7 +32,7 @@ func sentinelStmts(n, i int, fault string) string {
 		if k == i {
 			sb.WriteString(fault)
 		} else {
-			fmt.Fprintf(&sb, "PAGE-SENTINEL-%d {{ %d }}\n", k, k)
+			fmt.Fprintf(&sb, "PAGE-SENTINEL-%d 100%% %%d {{ %d }}\n", k, k)
 		}
 	}
 	return sb.String()
@@ -71,6 +72,9 @@ var respPlaces = []respPlace{
 	}},
 	{"inside-component-argument", func(n, i int, fault string) (map[string]string, string) {
 		expr := strings.TrimSuffix(strings.TrimPrefix(strings.TrimSpace(fault), "{{"), "}}")
+		if strings.HasPrefix(fault, "@") {
+			expr = "6 / zero" // a directive cannot stand in an argument
+		}
 		if i < 0 {
 			expr = "\"fine\""
 		}
@@ -87,7 +91,11 @@ var respPlaces = []respPlace{
 	}},
 }
 
-var respFaults = []string{"{{ 1 / zero }}\n", "{{ MISSING_IDENT_SENTINEL }}\n", "{{ rows.nofn() }}\n", "{{ \"s\" + 1 }}\n"}
+var respFaults = []string{"{{ 1 / zero }}\n", "{{ MISSING_IDENT_SENTINEL }}\n", "{{ rows.nofn() }}\n", "{{ \"s\" + 1 }}\n",
+	// the failing expression is not the first of a list
+	"{{ [\"go\", \"html\", MISSING_IDENT_SENTINEL] }}\n", "{{ \"short text\".truncate(50, MISSING_IDENT_SENTINEL) }}\n", "{{ {a: 1, b: 1 / zero}.a }}\n",
+	// the page fails in a later pass of a loop, after the loop has produced output
+	"@each(r in rows)PAGE-SENTINEL-inner {{ 6 / (2 - r) }}@end\n"}
 
 var errPageModes = []string{"none", "valid", "missing", "failing"}
 
@@ -159,7 +167,7 @@ func init() {
 				files := map[string]string{"page.tw": model.PrintStmts(prog, model.Style{Layout: model.SpaceLayout})}
 				switch mode {
 				case "valid":
-					files["errors/oops.tw"] = customPageText
+					files["errors/oops.tw"] = customPageSource
 				case "failing":
 					files["errors/oops.tw"] = "CUSTOM-SENTINEL start {{ 1 / 0 }}"
 				}
@@ -241,7 +249,7 @@ func init() {
 					files, name := pl.build(cb.n, cb.pos, fault)
 					switch errPageModes[cb.mode] {
 					case "valid":
-						files["errors/oops.tw"] = customPageText
+						files["errors/oops.tw"] = customPageSource
 					case "failing":
 						files["errors/oops.tw"] = "CUSTOM-SENTINEL start {{ 1 / 0 }}"
 					}
